@@ -142,12 +142,15 @@ def class_kwd_unmangled_matcher(rec, params):
 
 
 def constant_name_matcher(rec, params):
-    """an identifier field named None/True/False (attribute, global, keyword argument, parameter, import) cannot be written in Python"""
+    """an identifier field named None/True/False (attribute, global, keyword argument, parameter, import, function or class
+    name) cannot be written in Python"""
     import re
     if not _parse_failure(rec):
         return False
     line = _bad_line(rec)
     c = "(None|True|False)"
+    if re.match(r"^(async def|def|class) %s\b" % c, line):      # (setx \uff2eone (defn f [] 1)): Result.rename names the function None
+        return True
     return re.search(r"\.%s\b|\b%s=|^(global|nonlocal|import) (\w+, )*%s\b|\bas %s\b|^def \w+\([^)]*\b%s\b|lambda [^:]*\b%s\b" % ((c,) * 6), line) is not None
 
 
